@@ -226,7 +226,7 @@ static int new_packet(int sk_fd, int timer_fd)
 {
     int res;
     ssize_t n;
-    uint16_t h264_data_len;
+    uint16_t h264_data_len, stream_data_len;
     uint32_t avtp_time;
     struct timespec tspec;
     Avtp_Cvf_t* cvf = alloca(MAX_PDU_SIZE);
@@ -241,8 +241,25 @@ static int new_packet(int sk_fd, int timer_fd)
         return -1;
     }
 
+    if (n < AVTP_FULL_HEADER_LEN) {
+        fprintf(stderr, "Dropping packet: too short\n");
+        return 0;
+    }
+
     if (!is_valid_packet(cvf)) {
         fprintf(stderr, "Dropping packet\n");
+        return 0;
+    }
+
+    /* The announced stream data (H.264 header + NAL unit) must have been
+     * received completely and the NAL unit must fit into a queue entry.
+     */
+    stream_data_len = Avtp_Cvf_GetStreamDataLength(cvf);
+    if (stream_data_len < AVTP_H264_HEADER_LEN ||
+        stream_data_len > n - sizeof(Avtp_Cvf_t) ||
+        stream_data_len - AVTP_H264_HEADER_LEN > DATA_LEN) {
+        fprintf(stderr, "Dropping packet: invalid stream data length %"PRIu16"\n",
+                stream_data_len);
         return 0;
     }
 
